@@ -69,6 +69,33 @@ def path_single(ctx, job, box):
     return checks
 
 
+def pick_u32(ctx, name, values):
+    """Some(v) with v one of `values` (chosen by the solver)."""
+    v = ctx.bvvar(name, 32)
+    ctx.assume(z3.Or([v == x for x in values]))
+    return some(Int('u32', ctx.concretize(v)))
+
+
+def path_remote(ctx, job, box):
+    """resize between large sizes (around the 8-bit boundary) on a sparsely written screen."""
+    cols, lines = job.params['geom']
+    run = GridRun(ctx, box, cols, lines, tabstops=0, savepoints=0, titles='none', extra_mode=False, dirty='none',
+                  saved_columns='none', **remote_opts(cols, lines))
+    L = run.L
+    tc = sorted({v for v in (1, cols // 2, 255, 256, 257, cols - 1, cols, cols + 1) if v >= 1 and abs(v - cols) <= 300})
+    tl = sorted({v for v in (1, lines // 2, 255, 256, 257, lines - 1, lines, lines + 1) if v >= 1 and abs(v - lines) <= 300})
+    # one dimension at a time (the other is kept, passed explicitly or absent)
+    if job.params['dim'] == 'columns':
+        run.call('resize', sym_opt_u32(ctx, 'rl', lines, lines), pick_u32(ctx, 'rc', tc))
+    else:
+        run.call('resize', pick_u32(ctx, 'rl', tl), sym_opt_u32(ctx, 'rc', cols, cols))
+    if run.outcome == 'panic':
+        return run.panic_check('resize panics: %s' % run.msg)
+    checks = []
+    resize_oracle(run, ctx, run.pre, run.post, cols, lines, checks)
+    return checks
+
+
 FIRST = ['resize', 'insert_characters', 'erase_in_line', 'reverse_index', 'index', 'delete_lines', 'insert_lines',
          'draw', 'erase_characters', 'delete_characters']
 
@@ -108,6 +135,11 @@ def jobs(tier):
     from . import c12
     for saved in ('none', 'sym'):
         js.append(Job('deccolm-roundtrip/%s/2x2' % saved, c12.path_roundtrip, geom=(2, 2), saved=saved, prop=PROP))
+    for w in ((133, 256) if tier == 'quick' else (131, 133, 140, 255, 256, 257, 300, 512)):
+        js.append(Job('deccolm-roundtrip/%dx1' % w, c12.path_roundtrip, geom=(w, 1), wide=True, prop=PROP))
+    for g in ([(9, 6)] if tier == 'quick' else [(9, 6), (258, 2), (2, 258), (17, 9)]):
+        for dim in ('columns', 'lines'):
+            js.append(Job('remote/%s/%dx%d' % (dim, g[0], g[1]), path_remote, geom=g, dim=dim, prop=PROP))
     gs = [(1, 1), (2, 2), (3, 2), (1, 3), (1, 4)] if tier == 'quick' else [(1, 1), (2, 1), (1, 2), (2, 2), (3, 2), (2, 3), (3, 3)]
     for g in gs:
         js.append(Job('single/%dx%d' % g, path_single, geom=g, prop=PROP))
@@ -125,5 +157,7 @@ META = {
     'bounds': 'geometries {1x1,2x2,3x2,1x3,1x4} (thorough + {2x1,1x2,3x3}), every cell/row present or absent, margins, DECOM, '
               'pending-wrap cursor symbolic; target sizes 1..=size+2 in both dimensions (absent = keep); two-step '
               'sequences [resize | ICH | EL | RI | IND | DL | IL | draw | ECH | DCH] then resize on 2x2 (thorough + 3x2, 2x3)',
-    'outside': 'larger screens; sequences longer than two steps',
+    'outside': 'larger screens other than the sparsely written remote ones (quick 9x6; thorough + 258x2, 2x258, 17x9 with '
+               'target sizes around 1, half, 255..257 and size-1..size+1) and the DECCOLM round trip on never-written '
+               'screens of 133 and 256 (thorough 131..512) columns; sequences longer than two steps',
 }
